@@ -91,7 +91,7 @@ Lemma nice_opt_or : forall o d, nice_opt o -> nice d -> nice (opt_or o d).
 Proof. intros [s|] d H Hd; simpl; assumption. Qed.
 
 (* ------------------------------------------------------------------ bounds *)
-Lemma last_dim_snoc : forall n l x a, last_dim {| v_name := n; v_dims := l ++ [x]; v_attrs := a |} = Some x.
+Lemma last_dim_snoc : forall n l x a k, last_dim {| v_name := n; v_dims := l ++ [x]; v_attrs := a; v_kind := k |} = Some x.
 Proof. intros. unfold last_dim; simpl. rewrite map_app. simpl. apply last_last. Qed.
 
 Lemma write_bounds_spec : forall b cdims cvar w extra w',
@@ -143,7 +143,7 @@ Proof.
   inversion H; subst; clear H.
   destruct (alloc_inv _ _ _ _ E3 I2 (nice_opt_or _ _ Hbv Hd)) as [I3 [Hf [Hn [Hin [EV ED]]]]].
   destruct (alloc_spec _ _ _ _ E3) as [_ [A1 [A2 [A3 [A4 [A5 [A6 [A7 A8]]]]]]]].
-  set (bv := {| v_name := bvar; v_dims := cdims ++ [bdim]; v_attrs := [] |}).
+  set (bv := {| v_name := bvar; v_dims := cdims ++ [bdim]; v_attrs := []; v_kind := KNum |}).
   assert (Hfw : ~ In bvar (used w)) by (intro Hx; apply Hf; apply (ext_used _ _ X2); exact Hx).
   split; [|split; [|split; [|splits; simpl; try congruence]]].
   - apply add_var_inv; [exact I3|exact Hin| |left; reflexivity].
